@@ -40,6 +40,7 @@ def run(ctx, rep):
         check_table(crate, rep, cfg)
         check_keyrefuse(crate, rep, cfg)
         check_sort(crate, rep, cfg)
+        check_elem(crate, rep, cfg)
 
 
 def check_cast(crate, rep, cfg):
@@ -183,3 +184,52 @@ def check_sort(crate, rep, cfg):
         ok = not (set(writes) & reach)
     (rep.ok if ok else rep.bad)("C19.SORT", key, b.where(sorts[0]) if sorts else b.where(0), "every path of format_map to its first write passes the key sort "
                                 "(maps print in sorted key order)" + ("" if ok else " — VIOLATED"))
+
+
+def check_elem(crate, rep, cfg):
+    """C19.ELEM — nested values are deserialised by a *complete* Deserializer: the element / value deserializers that the bridge hands to
+    serde's SeqDeserializer / MapDeserializer are of a type whose Deserializer impl implements deserialize_option and deserialize_enum itself
+    (not through forward_to_deserialize_any, which would reject `Some(..)` and enums nested in arrays and maps)."""
+    import re
+    impls = {}
+    for p_, b in crate.bodies.items():
+        m = re.match(r"^<(.+) as serde::Deserializer<'de>>::(deserialize_\w+)$", p_) or re.match(r"^value::de::<impl serde::Deserializer<'de> for (.+)>::(deserialize_\w+)$", p_)
+        if m:
+            impls.setdefault(m.group(1), {})[m.group(2)] = bool(b.j.get("from_exp"))
+    full = {t for t, ms in impls.items() if ms.get("deserialize_option") is False and ms.get("deserialize_enum") is False}
+    rep.add("C19.ELEM", "C19.ELEM:complete-impls", bool(full), "tera/src/value/de.rs", "Deserializer impls that implement deserialize_option and deserialize_enum themselves: %s; "
+            "forwarding impls: %s" % (sorted(full), sorted(set(impls) - full)) + ("" if full else " — VIOLATED"))
+    n = 0
+    for b in crate.in_files("value/de.rs"):
+        if b.kind == "const":
+            continue
+        for bb, t in b.calls():
+            cd = callee_def(t)
+            if not (("SeqDeserializer" in cd or "MapDeserializer" in cd) and cd.endswith("::new")):
+                continue
+            n += 1
+            rep.analysed(b)
+            ity = (t["f"].get("targs") or t["atys"] or ["?"])[0]
+            m = re.search(r"\{closure@[^:]+:(\d+):", ity)
+            elem = None
+            if m:
+                line = int(m.group(1))
+                cl = [c for c in crate.children(crate.root_of(b)) if c.j.get("line") == line]
+                if len(cl) == 1:
+                    elem = cl[0].local_ty(0)
+            else:
+                m2 = re.search(r"Iter<'_, (?:[^,<>]+(?:<[^<>]*>)?, )?([^<>]+)>$", ity)
+                elem = ("&" + m2.group(1)) if m2 else None
+            is_map = "MapDeserializer" in cd
+            if elem is None:
+                ok, shown = False, "unknown (%s)" % ity[:80]
+            else:
+                comps = [x.strip() for x in elem.strip("()").split(",")] if elem.startswith("(") else [elem]
+                val = comps[-1]
+                ok = val in full
+                shown = val
+            key = "C19.ELEM:%s:%s#%d" % (crate.root_of(b).path.rsplit("::", 1)[-1], "map-values" if is_map else "seq-elements", n)
+            rep.add("C19.ELEM", key, ok, b.where(bb), "%s are deserialised through `%s`, a complete Deserializer impl" % ("map values" if is_map else "sequence elements", shown)
+                    + ("" if ok else " — VIOLATED: that impl forwards deserialize_option / deserialize_enum to deserialize_any: `Some(..)` and enum values nested here no longer "
+                                     "round-trip"))
+    rep.floor("C19.ELEM", "Seq/MapDeserializer constructions in the bridge [%s]" % cfg, n, 2)
